@@ -619,6 +619,11 @@ pub fn generate(name: &str, rng: &mut Rng, n: usize, tier: &str) -> Vec<String> 
                 let total = 1u64 << (8 * len);
                 for x in 0..total {
                     let b: Vec<u8> = (0..len).rev().map(|i| (x >> (8 * i)) as u8).collect();
+                    // 3-byte strings: a first byte below 0xfe is one atom token (the decoders stop after it);
+                    // those are covered by the <= 2-byte strings and by the classic streams
+                    if len == 3 && b[0] < 0xfe && b[0] != 0x82 && b[0] != 0xc0 {
+                        continue;
+                    }
                     let h = hex_or_dash(&b);
                     push("DE", format!("br {}", h));
                     push("DE", format!("brold {}", h));
@@ -923,7 +928,11 @@ fn oracle_c18(rng: &mut Rng, n: usize, tier: &str) -> OracleReport {
     let maxlen = if tier == "thorough" { 3 } else { 2 };
     for len in 0..=maxlen {
         for x in 0..(1u64 << (8 * len)) {
-            cases.push(((0..len).rev().map(|i| (x >> (8 * i)) as u8).collect(), vec![]));
+            let b: Vec<u8> = (0..len).rev().map(|i| (x >> (8 * i)) as u8).collect();
+            if len == 3 && b[0] < 0xfe && b[0] != 0x82 && b[0] != 0xc0 {
+                continue;
+            }
+            cases.push((b, vec![]));
         }
     }
     let nexh = cases.len();
